@@ -22,7 +22,7 @@ from ..common import Report, stream, digest, order_to_decisions, big
 from ..isolation import pristine_state
 from ..engine import Engine, Monitor, Scripted
 from ..ops import canon_fd, canon_rt, canon_vd
-from ..terms import World, snap, diff_path
+from ..terms import World, snap, diff_path, attr_locus
 
 PID = "C16"
 
@@ -354,9 +354,10 @@ def generate(seed):
         elif c < 0.5:
             add("doc", ["line one\n", "line two"])
         else:
-            dd = {"description": r.choice(["text\n", ["a\n", "b"]])}
+            # incl. blocks that are already in the parser's own normal form
+            dd = {"description": r.choice(["text\n", ["a\n", "b"], ["a", "b"], ["a"]])}
             if r.random() < 0.5:
-                dd["examples"] = ["ex 1\n", "ex 2"]
+                dd["examples"] = r.choice([["ex 1\n", "ex 2"], ["ex 1"], []])
             add("doc", dd)
 
     # aliasing INSIDE one spec: the same sub-structure at two positions
@@ -396,7 +397,7 @@ def generate(seed):
             if dc is not None:
                 rule["doc"] = dc
             else:
-                rule["doc"] = r.choice(["text\n", ["a\n"], {"description": "d\n"}, {"description": ["d"], "examples": ["e\n"]}, {}, "", [], {"description": [], "examples": [" e "]}, [" a ", "b\n"]])
+                rule["doc"] = r.choice(["text\n", ["a\n"], {"description": "d\n"}, {"description": ["d"], "examples": ["e\n"]}, {}, "", [], {"description": [], "examples": [" e "]}, [" a ", "b\n"], {"description": ["d"]}, {"description": ["d"], "examples": []}, {"description": ["d", "e"], "examples": ["x"]}])
         if r.random() < 0.5:
             rule = dict(sorted(rule.items(), key=lambda kv: r.random()))
         return rule
@@ -491,6 +492,33 @@ def behaviour(kind, obj, docs):
         except Exception as e:
             out.append(("raise", type(e).__name__))
     return tuple(out)
+
+
+def use_read_only(obj):
+    """Put a parse result to the read-only uses a caller has besides validate /
+    test / filter / get_data: documentation tree and serialisers.  What they
+    return is not judged here; they are called so that a result which ALIASES
+    the caller's spec and writes through it shows up as a change of the spec."""
+    n = 0
+    for name in ("to_tree", "to_json_like", "to_part_specs", "simplify"):
+        f = getattr(obj, name, None)
+        if callable(f):
+            try:
+                f()
+            except Exception:
+                pass
+            n += 1
+    for name in ("rules", "path", "condition"):
+        sub = getattr(obj, name, None)
+        for o in sub if isinstance(sub, list) else ([sub] if sub is not None and not callable(sub) else []):
+            f = getattr(o, "to_json_like", None)
+            if callable(f):
+                try:
+                    f()
+                except Exception:
+                    pass
+                n += 1
+    return n
 
 
 def try_parse(entry, spec):
@@ -598,6 +626,22 @@ def on_boundary(eng, c, k, op, out):
         return vio
     if first is None:
         st["first"][(si, entry)] = {"obj": obj, "behaviour": bs, "witness": f2[1], "snap": None}
+    # "leaves the caller's spec structure unchanged" also while the result is put
+    # to read-only use (the probes above; to_tree / to_json_like ... here): a
+    # result that aliases the spec and writes through it later changes the spec
+    # under the caller just the same.  The engine compared the specs right after
+    # the parse (before this callback), so what differs now was done by the uses.
+    st["read_only_uses"] += use_read_only(obj)
+    for label, path in eng.monitor.check():
+        vio.append(
+            dict(
+                oracle="spec_changed_by_use_of_parse_result",
+                locus=(locus_hook(eng, label, path, None) or attr_locus(path)).replace("spec_mutated:", ""),
+                detail={"op": op, "object": label, "diff": list(path or ())},
+            )
+        )
+    if vio:
+        return vio
     # Earlier results must not be altered by LATER PARSES (a Rule that aliases
     # the caller's cast dict is emptied by the next parse).  Their structure is
     # recorded at the end of the step in which they were produced and compared
@@ -650,7 +694,7 @@ def run(case):
     for i in range(n):
         mon.register(f"specs[{i}]", world.get("specs", i))
     docs = [world.get("docs", i) for i in range(len(term["docs"]))]  # probes only; whether reads leave them alone is C08's statement
-    world.state = {"docs": docs, "first": {}, "count": {}, "last": None, "parses": 0, "reparses": 0, "both_raise": 0, "eq_unusable": 0}
+    world.state = {"docs": docs, "first": {}, "count": {}, "last": None, "parses": 0, "reparses": 0, "both_raise": 0, "eq_unusable": 0, "read_only_uses": 0}
     eng = Engine(world, case["programs"], exec_op, mon, Scripted(case["decisions"]), mode="op", on_boundary=on_boundary)
     eng.locus_hook = locus_hook
     eng.run()
@@ -668,6 +712,7 @@ def run(case):
         "parses_compared_with_fresh": st["parses"],
         "reparses_of_same_structure": st["reparses"],
         "parses_where_both_raise": st["both_raise"],
+        "read_only_uses_of_results_with_spec_recheck": st["read_only_uses"],
         "parses_where_equality_unusable": st["eq_unusable"],
         "aliased_substructures": shared_refs,
         "parses_by_entry_point": by_entry,
@@ -711,6 +756,7 @@ def evidence_info():
             "equality is evaluated on objects nobody has used yet: the shared parse result against an unused second parse of ONE fresh copy of the structure (whose two parses must be equal: the property's own wording), and the k-th parse against an unused witness of the first; what using an object does to it is C08's statement",
             "reference computations run with valida's module-level mutable state put back to import time (isolation.pristine_state)",
             "behavioural equality is checked on the world's 2-3 probe documents only",
+            "'leaves the caller's spec unchanged' is also checked after the parse result has been put to read-only use (validate / test / filter / get_data on the probe documents, to_tree, to_json_like, to_part_specs, simplify): a change of the spec made through an alias kept by the result is reported as spec_changed_by_use_of_parse_result",
             "operation-boundary histories only",
         ],
     }
